@@ -488,11 +488,15 @@ def _relabel_mutations_node(
     num_edges = edges_parent.size
     num_mutations = mutations_position.size
 
+    output = np.full(num_mutations, tskit.NULL, dtype=np.int32)
+    if num_edges == 0:
+        output[:] = mutations_node
+        return output
+
     insert_position = edges_left[insert_index]
     remove_position = edges_right[remove_index]
     sequence_length = remove_position[-1]
 
-    output = np.full(num_mutations, tskit.NULL, dtype=np.int32)
     nodes_map = np.full(num_nodes, tskit.NULL, dtype=np.int32)
     a, b, m = 0, 0, 0
     left = 0.0
@@ -515,9 +519,18 @@ def _relabel_mutations_node(
         left = right
 
         while m < num_mutations and mutations_position[m] < right:
-            assert nodes_map[mutations_node[m]] != tskit.NULL
-            output[m] = nodes_map[mutations_node[m]]
+            if nodes_map[mutations_node[m]] != tskit.NULL:
+                output[m] = nodes_map[mutations_node[m]]
+            else:  # node not yet in any tree (e.g. isolated): keeps its ID
+                output[m] = mutations_node[m]
             m += 1
+
+    while m < num_mutations:  # mutations to the right of the last edge
+        if nodes_map[mutations_node[m]] != tskit.NULL:
+            output[m] = nodes_map[mutations_node[m]]
+        else:
+            output[m] = mutations_node[m]
+        m += 1
 
     return output
 
